@@ -69,7 +69,8 @@ def run(prog, tier, seed):
                               # (a reachability that edits the set it is
                               # given edits a memoised child set)
                               T(c13.rule_g12, prog, adj, _n=2),
-                              T(c13.rule_g3, prog, adj))
+                              T(c13.rule_g3, prog, adj),
+                              T(c13.rule_g0, prog, adj))
     G = T(c09.grammars, prog)
     res = res + T.results(
         T(c12.rule_scc, prog), T(c12.rule_scc6, prog), T(c05.rule_rw3, prog),
